@@ -105,6 +105,9 @@ func StdEnv() []EnvVal {
 		{"ext", &dtpb.Extension{Url: &dtpb.Uri{Value: "http://e/x"}, Value: &dtpb.Extension_ValueX{Choice: &dtpb.Extension_ValueX_StringValue{StringValue: &dtpb.String{Value: "v"}}}}, "elem-complex"},
 		{"pat", StdPatient(), "resource"},
 		{"long", longStrings(), "multi"},
+		{"fprims", system.Collection{&dtpb.String{Value: "a"}, &dtpb.Code{Value: "b"}, &dtpb.Integer{Value: 1}, &dtpb.String{Value: "a"}, &dtpb.Boolean{Value: true}, &dtpb.Decimal{Value: "1.0"}}, "multi"},
+		{"tcoll", system.Collection{system.Boolean(true)}, "multi"},
+		{"fcoll", system.Collection{&dtpb.Boolean{Value: false}}, "multi"},
 	}
 }
 
@@ -137,7 +140,7 @@ var (
 		// beyond the float64 range in both directions (functions that go through float64 must not fail on them)
 		"1" + strings.Repeat("0", 320) + ".0", "-1" + strings.Repeat("0", 320) + ".0", "0." + strings.Repeat("0", 330) + "1"}
 	StrSrcs = []string{"''", "'abc'", "'a'", "'é'", "'h€llo😀'", "'é'", "'a\\'b'", "' 1'", "'1'", "'+1'", "'-1'", "'1.0'", "'1e3'", "'abc1'", "'true'", "'yes'", "'T'",
-		"'2020'", "'2020-01-01'", "'2020-13-01'", "'2020-01-01T10:00:00Z'", "'@2020'", "'T10:00'", "'10:00'", "'24:00'", "'25:00'", "'5 \\'mg\\''", "'5'", "'5 days'", "'1 \\'wk\\''", "'5 mg'", "'(['", "'a.b'", "'5\\t mg'", "'1.5\\r days'", "'5 \\'m g\\''", "'5\\n\\'mg\\''", "'5\\t'", "'\\t5'",
+		"'2020'", "'2020-01-01'", "'2020-13-01'", "'2020-01-01T10:00:00Z'", "'@2020'", "'T10:00'", "'10:00'", "'24:00'", "'25:00'", "'5 \\'mg\\''", "'5'", "'5 days'", "'1 \\'wk\\''", "'5 mg'", "'(['", "'a.b'", "'\\u123'", "'ab\\u00e'", "'\\u00g'", "'\\u'", "'\\u1'", "'\\x'", "'a\\'", "'\\u12345'", "'5\\t mg'", "'1.5\\r days'", "'5 \\'m g\\''", "'5\\n\\'mg\\''", "'5\\t'", "'\\t5'",
 		"%fstr", "%fstrn", "%fcode", "%fenum", "%furi", "%fb64"}
 	BoolSrcs = []string{"true", "false", "%fbool"}
 	DateSrcs = []string{"@2020", "@2020-02", "@2020-02-29", "@2021-02-28", "@2020-12-31", "@0001-01-01", "@9999-12-31", "@2020-01", "%fdate", "(@9999-12-31 + 1 day)", "(@0001-01-01 - 2 years)"}
